@@ -191,54 +191,55 @@ which consumes a second time. -/
 theorem addPhase2_eqv {extra : List Key} {s t : State} (h : IInv extra s) (he : Eqv s t) (k : Key) (m : Mapping)
     (hp : ∀ x, x ∈ s.pass → x ∉ m.frm ∧ x ∉ m.to) :
     Eqv (addPhase2 s k m).1 (addPhase2 t k m).1 ∧ (addPhase2 s k m).2 = (addPhase2 t k m).2 := by
-  cases ha : producesActionKey m
-  · rw [addPhase2_nonaction s k m ha, addPhase2_nonaction t k m ha]; exact ⟨he, rfl⟩
-  · have r := ram_eqv he
-    have hi := (releaseActionMappings_spec h).1
-    have fs := releaseActionMappings_frame s
-    have ft := releaseActionMappings_frame t
-    have hlive : live (releaseActionMappings s).1 = live s := by simp only [live, fs.1, fs.2.2.1]
-    by_cases hl : live s = []
-    · -- no live key: both branches leave the core alone and emit nothing more
-      have hl1 : live (releaseActionMappings s).1 = [] := hlive ▸ hl
-      have hl2 : live (releaseActionMappings t).1 = [] := r.1.liveEq ▸ hl1
-      have hit := hi.of_equiv r.1
-      have key : ∀ (u : State) (hu : IInv extra (releaseActionMappings u).1) (hlu : live (releaseActionMappings u).1 = [])
-          (hpu : ∀ x, x ∈ u.pass → x ∉ m.frm ∧ x ∉ m.to),
-          (addPhase2 u k m).2 = (releaseActionMappings u).2 ∧
-          (addPhase2 u k m).1.inp = (releaseActionMappings u).1.inp ∧
-          (addPhase2 u k m).1.active = (releaseActionMappings u).1.active ∧
-          (addPhase2 u k m).1.pass = (releaseActionMappings u).1.pass ∧
-          (addPhase2 u k m).1.mapped = (releaseActionMappings u).1.mapped ∧
-          live (addPhase2 u k m).1 = [] := by
-        intro u hu hlu hpu
-        cases hb : shouldAbsorb u k
-        · rw [addPhase2_noabsorb u k m ha hb]; exact ⟨rfl, rfl, rfl, rfl, rfl, hlu⟩
-        · rw [addPhase2_absorb u k m ha hb, releaseAbsorbedKeys_no_live hu hlu]
-          have hp' : ∀ x, x ∈ (withAux (releaseActionMappings u).1 [] none (releaseActionMappings u).1.repTrig).pass →
-              x ∉ m.frm ∧ x ∉ m.to := by
-            intro x hx; simp [releaseActionMappings] at hx; exact hpu x hx.1
-          have n := afterConsume_noop _ m hp'
-          rw [n.1, n.2]
-          exact ⟨by simp, rfl, rfl, rfl, rfl, by simp [live]⟩
-      have ks := key s hi hl1 hp
-      have kt := key t hit hl2 (he.pass ▸ hp)
-      refine ⟨⟨?_, ?_, ?_, ?_, ?_, ?_⟩, ?_⟩
-      · rw [ks.2.1, kt.2.1]; exact r.1.inp
-      · rw [ks.2.2.1, kt.2.2.1]; exact r.1.active
-      · rw [ks.2.2.2.1, kt.2.2.2.1]; exact r.1.pass
-      · rw [ks.2.2.2.2.1, kt.2.2.2.2.1]; exact r.1.mapped
-      · rw [ks.2.2.2.2.2, kt.2.2.2.2.2]
-      · intro hne; exact absurd ks.2.2.2.2.2 hne
-      · rw [ks.1, kt.1]; exact r.2
-    · have ht := he.trig hl
-      have hsa : shouldAbsorb s k = shouldAbsorb t k := by simp [shouldAbsorb, ht]
-      cases hb : shouldAbsorb s k
-      · rw [addPhase2_noabsorb s k m ha hb, addPhase2_noabsorb t k m ha (hsa ▸ hb)]; exact r
-      · rw [addPhase2_absorb s k m ha hb, addPhase2_absorb t k m ha (hsa ▸ hb)]
-        have q := releaseAbsorbedKeys_equiv hi r.1
-        have q3 := afterConsume_eqv q.2 m
-        exact ⟨q3.1, by rw [r.2, q.1, q3.2]⟩
+  have r : Eqv (ramIf m s).1 (ramIf m t).1 ∧ (ramIf m s).2 = (ramIf m t).2 := by
+    cases ha : producesActionKey m
+    · rw [ramIf_false m s ha, ramIf_false m t ha]; exact ⟨he, rfl⟩
+    · rw [ramIf_true m s ha, ramIf_true m t ha]; exact ram_eqv he
+  have hi := (ramIf_spec m h).1
+  have fs := ramIf_frame m s
+  have ft := ramIf_frame m t
+  have hlive : live (ramIf m s).1 = live s := by simp only [live, fs.1, fs.2.2.1]
+  by_cases hl : live s = []
+  · -- no live key: both branches leave the core alone and emit nothing more
+    have hl1 : live (ramIf m s).1 = [] := hlive ▸ hl
+    have hl2 : live (ramIf m t).1 = [] := r.1.liveEq ▸ hl1
+    have hit := hi.of_equiv r.1
+    have key : ∀ (u : State) (hu : IInv extra (ramIf m u).1) (hlu : live (ramIf m u).1 = [])
+        (hpu : ∀ x, x ∈ u.pass → x ∉ m.frm ∧ x ∉ m.to),
+        (addPhase2 u k m).2 = (ramIf m u).2 ∧
+        (addPhase2 u k m).1.inp = (ramIf m u).1.inp ∧
+        (addPhase2 u k m).1.active = (ramIf m u).1.active ∧
+        (addPhase2 u k m).1.pass = (ramIf m u).1.pass ∧
+        (addPhase2 u k m).1.mapped = (ramIf m u).1.mapped ∧
+        live (addPhase2 u k m).1 = [] := by
+      intro u hu hlu hpu
+      cases hb : absorbsNow u k m
+      · rw [addPhase2_skip u k m hb]; exact ⟨rfl, rfl, rfl, rfl, rfl, hlu⟩
+      · rw [addPhase2_run u k m hb, releaseAbsorbedKeys_no_live hu hlu]
+        have hp' : ∀ x, x ∈ (withAux (ramIf m u).1 [] none (ramIf m u).1.repTrig).pass →
+            x ∉ m.frm ∧ x ∉ m.to := by
+          intro x hx; exact hpu x (ramIf_pass_sub m u x hx)
+        have n := afterConsume_noop _ m hp'
+        rw [n.1, n.2]
+        exact ⟨by simp, rfl, rfl, rfl, rfl, by simp [live]⟩
+    have ks := key s hi hl1 hp
+    have kt := key t hit hl2 (he.pass ▸ hp)
+    refine ⟨⟨?_, ?_, ?_, ?_, ?_, ?_⟩, ?_⟩
+    · rw [ks.2.1, kt.2.1]; exact r.1.inp
+    · rw [ks.2.2.1, kt.2.2.1]; exact r.1.active
+    · rw [ks.2.2.2.1, kt.2.2.2.1]; exact r.1.pass
+    · rw [ks.2.2.2.2.1, kt.2.2.2.2.1]; exact r.1.mapped
+    · rw [ks.2.2.2.2.2, kt.2.2.2.2.2]
+    · intro hne; exact absurd ks.2.2.2.2.2 hne
+    · rw [ks.1, kt.1]; exact r.2
+  · have ht := he.trig hl
+    have hsa : absorbsNow s k m = absorbsNow t k m := by simp [absorbsNow, shouldAbsorb, ht]
+    cases hb : absorbsNow s k m
+    · rw [addPhase2_skip s k m hb, addPhase2_skip t k m (hsa ▸ hb)]; exact r
+    · rw [addPhase2_run s k m hb, addPhase2_run t k m (hsa ▸ hb)]
+      have q := releaseAbsorbedKeys_equiv hi r.1
+      have q3 := afterConsume_eqv q.2 m
+      exact ⟨q3.1, by rw [r.2, q.1, q3.2]⟩
 
 theorem addAbsorbed_filter (p : Key → Bool) (a b : List Key) :
     (addAbsorbed a b).filter p = addAbsorbed (a.filter p) (b.filter p) := by
